@@ -23,7 +23,9 @@ RULE = ('three streams: (a) random operation sequences (add/get/get_category/rel
         'programs that override statements (route statements: the entry is the live route of the mapper); (d) one statement '
         'given several values of a multi-valued argument, statements executed as compiled configuration TEXT, pairs probing which '
         'statement is in effect (URL static views under two route prefixes; a tween named in the settings and by add_tween); '
-        '(e) histories of nested action methods (add-on directives registering entries, calling each other with/without _info, '
+        'every directive that has a public class-level alias also spelled through the alias; two spellings of one thing (default '
+        'renderer None / \'\') in an overriding include, with the registered factory probed; two subscribers that are distinct but '
+        'equal callables; (e) histories of nested action methods (add-on directives registering entries, calling each other with/without _info, '
         'raising, catching) against the extracted model of the action-info stack. non-trivial = an op sequence containing at least one relate/register-with-relation '
         'and one read-back, or a directive scenario with at least 2 argument-carrying keys; distinct by full case')
 ASSUMPTIONS = ['hash((category, discriminator)) is injective on the discriminators used (dict-key equality of introspectables = same '
@@ -58,7 +60,8 @@ TECHNIQUE = ('Coq proof over an Introspector state machine; the executable progr
              '_backframes, through add-on directives that include(), in pairs sharing an object, with one-shot iterators; '
              'discriminator facts (slices of the entry and action discriminator of every site pinned; every parameter the action '
              'discriminator depends on reaches the entry discriminator; a directive issuing several actions discriminates each; no '
-             'loop variable read outside its loop); a Coq model of the action-info stack run against nested add-on directives; '
+             'loop variable read outside its loop; class-level statements of every class of the directive modules pinned; the set of '
+             'non-action-method methods that forward to an action-method directive pinned); a Coq model of the action-info stack run against nested add-on directives; '
              'tools/coverage_map.py --property C20 reports 0 untied functions in the anchor files')
 LEVEL_TEXT = ('Theorems: the program regenerated from the current source equals the reference model for every method and on every '
               'operation sequence (C20_generated_*_is_model, C20_generated_run_is_model); every key of every regenerated directive '
@@ -71,7 +74,8 @@ LEVEL_TEXT = ('Theorems: the program regenerated from the current source equals 
               '(entry_not_displaced, injective_keys_keep_entries); the action-info stack is restored by every call, returning or '
               'raising, every entry made under any nesting of action methods carries the info of the outermost statement, also in '
               'histories with failures on one configurator (ainfo_stack_balanced, statement_entries_point_at_statement, '
-              'history_statements_point_at_themselves); for the Introspector state machine, for every operation sequence: '
+              'history_statements_point_at_themselves); get_category lists, in every state, exactly the stored entries of the '
+              'category in ascending registration order (get_category_exact_and_sorted); for the Introspector state machine, for every operation sequence: '
               'relations are symmetric and exact, get returns the latest registration, remove erases the entry, disabled '
               'introspection records nothing, only executed actions are recorded -- the last four also restated about the '
               'regenerated program (..._generated).')
@@ -180,6 +184,45 @@ def facts(src):
     for k, w in sorted(want_cl.items()):
         if class_level.get(k) != w:
             problems.append('class-level statements of %s changed: %s (expected %s)' % (k, class_level.get(k), w))
+    for k, g in sorted(class_level.items()):
+        if g and k not in want_cl:
+            problems.append('class %s has class-level statements %s and no pin (aliases of directives are public entry points)' % (k, g))
+    # FORWARDERS: a method that is not an action method and calls an action-method directive of the same configurator puts
+    # ITS OWN frame between the statement and the directive (the entry then points into pyramid); the ones that exist are the
+    # constructor's defaults (add_default_*, setup_registry) and StaticURLInfo.add (reached through add_static_view): pinned
+    am = set()
+    ctrees = {}
+    for rel in CLASS_FILES:
+        try:
+            ctrees[rel] = F.Module(src, rel).tree
+        except (OSError, SyntaxError):
+            continue
+        for n_ in ast.walk(ctrees[rel]):
+            if isinstance(n_, ast.FunctionDef) and any(ast.unparse(d_) == 'action_method' for d_ in n_.decorator_list):
+                am.add(n_.name)
+    fwd = {}
+    for rel, tree in ctrees.items():
+        for c in ast.walk(tree):
+            if not isinstance(c, ast.ClassDef):
+                continue
+            for f_ in c.body:
+                if isinstance(f_, ast.FunctionDef) and not any(ast.unparse(d_) == 'action_method' for d_ in f_.decorator_list):
+                    calls = sorted({x.func.attr for x in ast.walk(f_) if isinstance(x, ast.Call) and isinstance(x.func, ast.Attribute)
+                                    and isinstance(x.func.value, ast.Name) and x.func.value.id in ('self', 'config')
+                                    and x.func.attr in am})
+                    if calls:
+                        fwd['%s:%s.%s' % (rel, c.name, f_.name)] = calls
+    try:
+        with open(os.path.join(HERE, 'pins_forwarders.json')) as f:
+            want_fw = json.load(f)
+    except (OSError, ValueError):
+        want_fw = {}
+        problems.append('cannot read harness/c20/pins_forwarders.json')
+    for k in sorted(set(fwd) | set(want_fw)):
+        if fwd.get(k) != want_fw.get(k):
+            problems.append('%s: a method that is not an action method forwards to the directives %s (pinned: %s): statements made '
+                            'through it are recorded with a frame of pyramid as their action info' % (k, fwd.get(k), want_fw.get(k)))
+    summary['forwarders'] = len(fwd)
     summary['class_level_checked'] = len(class_level)
     # the introspector program, regenerated from the source text (harness/c20/translate.py)
     gen, tpr, tsum, masked = T.translate_tree(src)
@@ -602,6 +645,13 @@ def _scenarios():
     # the same tween factory named at two levels: in the pyramid.tweens setting (explicit) and by add_tween (implicit);
     # the two statements do not conflict and both are registered
     P['add_tween/explicit-and-implicit'] = ('settings', 0, 0, None)
+    # two spellings of ONE thing (None and '' both name the default renderer): an include's statement overridden by the
+    # application's; which factory is registered is probed, only the statement in effect may have an entry
+    P['add_renderer/none-and-empty'] = ('include-probe', 0, 0, {'name': None, 'factory': mk('rf_other')}, {'name': ''})
+    P['add_renderer/empty-and-none'] = ('include-probe', 0, 0, {'name': '', 'factory': mk('rf_other2')}, {'name': None})
+    # two statements whose principal objects are DISTINCT but compare EQUAL (callable value objects made by two add-ons):
+    # both subscriptions are live
+    P['add_subscriber/equal-callables'] = ('same', 0, 0, {'subscriber': _EqCallable(1)}, {'subscriber': _EqCallable(1)})
     for fam in ('view', 'route', 'subscriber'):
         S['add_%s_predicate' % fam] = ('_add_predicate', simple(
             'add_%s_predicate' % fam, name='zz_%s_pred' % fam, factory=mk(fam + '_pred_factory'),
@@ -614,6 +664,30 @@ def _scenarios():
         path_info='/vpi', match_param='a=b', http_cache=37, require_csrf=V(False, True),
         mapper=None, decorator=deco, permission='perm.view'))
     return S
+
+
+class _EqCallable:
+    """a callable value object: instances made separately compare (and hash) equal"""
+
+    def __init__(self, v):
+        self.v = v
+
+    def __call__(self, *a, **k):
+        return None
+
+    def __eq__(self, other):
+        return isinstance(other, _EqCallable) and other.v == self.v
+
+    def __hash__(self):
+        return hash(('_EqCallable', self.v))
+
+
+def _probe_renderer(c, args):
+    from pyramid.interfaces import IRendererFactory
+    return c.registry.queryUtility(IRendererFactory, name=args['name'] or '') is args['factory']
+
+
+PROBES = {'add_renderer': _probe_renderer}
 
 
 def tween_factory_x(handler, registry):
@@ -696,6 +770,9 @@ def _run_directive(case):
     func, build = scenarios()[name]
     call, args = build(variant, True) if case.get('iter') else build(variant)
     c = Configurator(autocommit=False)
+    if case.get('alias'):
+        # the statement is spelled with a legacy alias of the directive (class-level `alias = directive`)
+        c = _AliasProxy(c, _directive_name(name), case['alias'])
     layers = case.get('layers', 0)
     want_line = [None]
     if layers:
@@ -753,6 +830,42 @@ def _run_directive(case):
 
 _VD = []
 _DOC = []
+
+
+class _AliasProxy:
+    def __init__(self, real, frm, to):
+        self.__dict__.update(_real=real, _frm=frm, _to=to)
+
+    def __getattr__(self, name):
+        return getattr(self._real, self._to if name == self._frm else name)
+
+
+def _directive_name(scen):
+    b = scenarios()[scen][1]
+    return getattr(b, 'layerable', None) or scen
+
+
+_ALIASES = []
+
+
+def _aliases():
+    """[(alias, scenario)]: public class-level aliases `alias = directive` of directives that have a scenario, read from the
+    PINNED class-level statements (an alias turned into something else keeps its scenario)"""
+    if not _ALIASES:
+        out = []
+        try:
+            with open(os.path.join(HERE, 'pins_classlevel.json')) as f:
+                cl = json.load(f)
+        except (OSError, ValueError):
+            cl = {}
+        byname = {_directive_name(sc): sc for sc in scenarios()}
+        for k, stmts in sorted(cl.items()):
+            for st in stmts:
+                parts = [x.strip() for x in st.split('=')]
+                if len(parts) == 2 and parts[0].isidentifier() and not parts[0].startswith('_') and parts[1] in byname:
+                    out.append((parts[0], byname[parts[1]]))
+        _ALIASES.append(out)
+    return _ALIASES[0]
 
 
 def _viewdefaults_directives():
@@ -817,7 +930,12 @@ def _run_pair(case):
         return [0, len(ents), m]
     c = Configurator(autocommit=False)
     before = {id(e['introspectable']) for cn, items in c.introspector.categorized() for e in items}
-    if mode in ('prefix', 'prefix-probe'):
+    if mode == 'include-probe':
+        def inc_first(cfg):
+            call1(cfg)
+        c.include(inc_first)
+        call2(c)
+    elif mode in ('prefix', 'prefix-probe'):
         def inc_a(cfg):
             call1(cfg)
 
@@ -837,6 +955,10 @@ def _run_pair(case):
     ok1 = [i for i, e in enumerate(ents) if _carries(func, want, e, args1, scen)]
     ok2 = [i for i, e in enumerate(ents) if _carries(func, want, e, args2, scen)]
     m = 2 if any(a != b for a in ok1 for b in ok2) else (1 if (ok1 or ok2) else 0)
+    if mode == 'include-probe':
+        eff = [bool(PROBES[scen](c, a_)) for a_ in (args1, args2)]
+        # entries are told apart by identity of the recorded objects where the arguments are objects
+        return [0, len(ents), m, eff, [bool(ok1), bool(ok2)]]
     if mode == 'prefix-probe':
         # which of the two statements is in effect: URL generation for its asset spec works
         from pyramid.request import Request
@@ -1228,6 +1350,8 @@ def generate(rng, tier, n):
         for combo in itertools.product((0, 1), repeat=nflags):
             if nflags >= 2 and len(set(combo)) > 1:
                 yield {'kind': 'directive', 'name': name, 'variant': list(combo)}
+    for alias, scen in _aliases():
+        yield {'kind': 'directive', 'name': scen, 'variant': 0, 'alias': alias}
     for name in sorted(_PAIRS):
         yield {'kind': 'pair', 'name': name}
     for name in sorted(MULTI):
@@ -1263,6 +1387,9 @@ def valid(case):
             if case['name'] not in scenarios():
                 return False
             v = case['variant']
+            if 'alias' in case and not ((case['alias'], case['name']) in _aliases() and 'layers' not in case
+                                        and 'execd' not in case and 'iter' not in case):
+                return False
             if 'execd' in case and not (case['execd'] is True and 'layers' not in case and 'iter' not in case
                                         and getattr(scenarios()[case['name']][1], 'layerable', None)):
                 return False
@@ -1670,7 +1797,8 @@ def kinds(case, obs):
     if case['kind'] == 'directive':
         return ['directive', 'directive:' + case['name']] + (['directive:iterator-argument'] if case.get('iter') else []) \
             + (['directive:layered-helper-%d' % case['layers']] if case.get('layers') else []) \
-            + (['directive:executed-configuration-text'] if case.get('execd') else [])
+            + (['directive:executed-configuration-text'] if case.get('execd') else []) \
+            + (['directive:legacy-alias'] if case.get('alias') else [])
     out = ['ops', 'ops-len-%d' % len(case['ops'])]
     for o, r in zip(case['ops'], obs if isinstance(obs, list) else []):
         out.append('op:' + o[0] + (':KeyError' if r == ['K'] else ':ValueError' if r == ['V'] else ''))
